@@ -244,4 +244,7 @@ def run(cx, tier='quick'):
     rep.not_decided += ['whether a user field type\'s Hash distinguishes values (premise of the property)']
     from .binders import check_binder_injectivity
     check_binder_injectivity(cx, rep, ['::hash::'])
+    from .c13 import include_own_parsers as _iop
+    from ..facts import Facts as _Fp
+    _iop(cx, _Fp(cx), rep, ['::hash::'])
     return rep
